@@ -38,6 +38,8 @@ var c10DockerSpec = &c10spec{
 		switch {
 		case sym == "stall":
 			return c10resp{Fault: "stall-pre"}
+		case sym == "slow":
+			return c10resp{Status: 200, CT: "json", Body: "objversion", Frame: "cl", DelayMs: 10500}
 		case class == "ping" && sym == "ok":
 			return c10resp{Status: 200, CT: "text", Body: "pingok", Frame: "cl", APIVer: "1.41"}
 		case class == "ping": // fail: the daemon answers 500 without version header; negotiation falls back to 1.24
@@ -95,7 +97,7 @@ var c10DockerSpec = &c10spec{
 				}
 			}
 		}
-		if k.Sec["version"] == "ok" && r.Version.Version != "20.10.7" {
+		if (k.Sec["version"] == "ok" || k.Sec["version"] == "slow") && r.Version.Version != "20.10.7" {
 			return fmt.Sprintf("version %q does not reproduce the served version 20.10.7", r.Version.Version)
 		}
 		return ""
@@ -122,6 +124,19 @@ func verifC10Docker(c *drv.Ctx) {
 	c10Bodies["objversion"] = struct{ data, class string }{`{"Version":"20.10.7","ApiVersion":"1.41","Os":"linux","Arch":"amd64"}`, "object"}
 	var cases []*c10case
 	idx := 0
+	// a slow but healthy daemon under a long configured timeout (queued first: each takes 10.5 s)
+	for _, which := range []string{"primary", "version"} {
+		idx++
+		if c.Mine(idx) {
+			k := &c10case{Scanner: "docker", Idx: idx, Scheme: "http", Prim: c10resp{Status: 200, CT: "json", Body: "obj0", Frame: "cl"}, Sec: map[string]string{"ping": "ok", "version": "ok"}, Long: true}
+			if which == "primary" {
+				k.Prim.DelayMs = 10500
+			} else {
+				k.Sec["version"] = "slow"
+			}
+			cases = append(cases, k)
+		}
+	}
 	for _, scheme := range []string{"http", "https"} {
 		for _, prim := range c10primaries(frames, scheme == "https") {
 			for _, ping := range []string{"ok", "fail", "stall"} {
